@@ -69,6 +69,10 @@ class RSTDirective(BaseDirective):
     directive_pattern = r"^\.\. +[a-zA-Z0-9_-]+\:\:"
 
     def parse_directive(self, block: "BlockParser", m: Match[str], state: "BlockState") -> Optional[int]:
+        if state.depth() >= block.max_nested_level:
+            # at the nesting limit a directive is plain text, as a fenced directive is plain code
+            return None
+
         m2 = _directive_re.match(state.src, state.cursor)
         if not m2:
             return None
